@@ -104,6 +104,17 @@ theorem table_cell_flow : ∀ b0 b1 b2 b3 b4 b5 b6 b7 : Bool,
     balancedB (flowList (bits8 b0 b1 b2 b3 b4 b5 b6 b7)) = true :=
   Tab.table_cell_flow
 
+/-- in lattice-edge ids, too, no case draws the same directed edge twice -/
+theorem table_case_edges_nodup : ∀ b0 b1 b2 b3 b4 b5 b6 b7 : Bool,
+    decide ((caseSegsRel (caseIndex (bits8 b0 b1 b2 b3 b4 b5 b6 b7))).Nodup) = true :=
+  Tab.table_case_edges_nodup
+
+/-- a face never carries a segment together with its reverse -/
+theorem table_canon_no_antiparallel :
+    (List.range 3).all (fun a => (List.range 16).all fun k =>
+      (canon a (bits4 k)).all fun e => !((canon a (bits4 k)).contains (swapE e))) = true :=
+  Tab.table_canon_no_antiparallel
+
 /-- two cases that agree on the four shared corner bits draw opposite segments on the shared face -/
 theorem table_face_consistent (a : Nat) (ha : a < 3) (b0 b1 b2 b3 b4 b5 b6 b7 c0 c1 c2 c3 c4 c5 c6 c7 : Bool)
     (h : faceBits (bits8 b0 b1 b2 b3 b4 b5 b6 b7) a 1 = faceBits (bits8 c0 c1 c2 c3 c4 c5 c6 c7) a 0) :
@@ -519,6 +530,146 @@ theorem vertex_near_isosurface (f : ℝ → ℝ) (hf : ContinuousOn f (Set.Icc 0
 
 example : ContinuousOn (fun τ : ℝ => 3 * τ - 1) (Set.Icc 0 1) ∧ ((fun τ : ℝ => 3 * τ - 1) 0 < 0 ∧ (0:ℝ) ≤ (fun τ : ℝ => 3 * τ - 1) 1) := by
   refine ⟨by fun_prop, by norm_num⟩
+
+/-! ## 5. One-face gluing, no duplicates inside a cell, and the full statement -/
+
+theorem shiftL_injective_aux (p : Pt) : Function.Injective (shiftL p) := by
+  intro a b h
+  obtain ⟨⟨a1, a2, a3⟩, ak⟩ := a; obtain ⟨⟨b1, b2, b3⟩, bk⟩ := b
+  simp only [shiftL, padd, Prod.mk.injEq] at h
+  obtain ⟨⟨h1, h2, h3⟩, h4⟩ := h
+  simp only [Prod.mk.injEq]; refine ⟨⟨?_, ?_, ?_⟩, h4⟩ <;> omega
+
+theorem shiftE_injective_aux (p : Pt) : Function.Injective (shiftE p) := by
+  intro a b h
+  obtain ⟨a1, a2⟩ := a; obtain ⟨b1, b2⟩ := b
+  simp only [shiftE, Prod.mk.injEq] at h
+  rw [shiftL_injective_aux p h.1, shiftL_injective_aux p h.2]
+
+/-- inside one cell no directed edge (in lattice-edge ids) is emitted twice -/
+theorem cell_edges_nodup (s : Pt → Bool) (p : Pt) : (cellEdges s p).Nodup := by
+  unfold cellEdges
+  exact (of_decide_eq_true (table_case_edges_nodup _ _ _ _ _ _ _ _)).map (shiftE_injective_aux p)
+
+/-- **One-face gluing.**  In any sign grid, the cell at `p` and its neighbour at `p + e_a` draw opposite segments on
+    the face they share (in lattice-edge ids): the segments of `p` on its high face are exactly the reverses of the
+    segments of `p + e_a` on its low face. -/
+theorem cells_glue_face (s : Pt → Bool) (p : Pt) (a : Nat) (ha : a < 3) :
+    ((faceSegs (caseIndex (cellBits s p)) a 1).map (shiftE p)).Perm
+      (((faceSegs (caseIndex (cellBits s (padd p (unit a)))) a 0).map (shiftE (padd p (unit a)))).map swapE) := by
+  have h1 := table_face_canonical (s (padd p (cornerOff 0))) (s (padd p (cornerOff 1))) (s (padd p (cornerOff 2)))
+    (s (padd p (cornerOff 3))) (s (padd p (cornerOff 4))) (s (padd p (cornerOff 5))) (s (padd p (cornerOff 6)))
+    (s (padd p (cornerOff 7)))
+  have h2 := table_face_canonical (s (padd (padd p (unit a)) (cornerOff 0))) (s (padd (padd p (unit a)) (cornerOff 1)))
+    (s (padd (padd p (unit a)) (cornerOff 2))) (s (padd (padd p (unit a)) (cornerOff 3)))
+    (s (padd (padd p (unit a)) (cornerOff 4))) (s (padd (padd p (unit a)) (cornerOff 5)))
+    (s (padd (padd p (unit a)) (cornerOff 6))) (s (padd (padd p (unit a)) (cornerOff 7)))
+  rw [List.all_eq_true] at h1 h2
+  have h1' := h1 a (List.mem_range.mpr ha)
+  have h2' := h2 a (List.mem_range.mpr ha)
+  simp only [Bool.and_eq_true, List.isPerm_iff] at h1' h2'
+  change (faceSegs (caseIndex (cellBits s p)) a 1).Perm _ ∧ _ at h1'
+  change _ ∧ (faceSegs (caseIndex (cellBits s (padd p (unit a)))) a 0).Perm _ at h2'
+  have e1 : faceBits (bits8 (s (padd p (cornerOff 0))) (s (padd p (cornerOff 1))) (s (padd p (cornerOff 2)))
+      (s (padd p (cornerOff 3))) (s (padd p (cornerOff 4))) (s (padd p (cornerOff 5))) (s (padd p (cornerOff 6)))
+      (s (padd p (cornerOff 7)))) a 1 = latticeFaceBits s (padd p (unit a)) a := faceBits_high_aux s p a ha
+  have e2 : faceBits (bits8 (s (padd (padd p (unit a)) (cornerOff 0))) (s (padd (padd p (unit a)) (cornerOff 1)))
+      (s (padd (padd p (unit a)) (cornerOff 2))) (s (padd (padd p (unit a)) (cornerOff 3)))
+      (s (padd (padd p (unit a)) (cornerOff 4))) (s (padd (padd p (unit a)) (cornerOff 5)))
+      (s (padd (padd p (unit a)) (cornerOff 6))) (s (padd (padd p (unit a)) (cornerOff 7)))) a 0
+      = latticeFaceBits s (padd p (unit a)) a := faceBits_low_aux s (padd p (unit a)) a ha
+  rw [e1] at h1'; rw [e2] at h2'
+  have l := h1'.1.map (shiftE p)
+  rw [shiftE_shiftE_aux] at l
+  have r := ((h2'.2.map (shiftE (padd p (unit a)))).map swapE)
+  rw [shiftE_swap_aux, List.map_map (f := swapE) (g := swapE)] at r
+  have hid : (swapE ∘ swapE : DEdge → DEdge) = id := by funext e; rfl
+  rw [hid, List.map_id] at r
+  exact l.trans r.symm
+
+/-- the full closedness statement in lattice-edge ids: balanced AND every directed edge at most once, i.e.
+    "every directed edge is matched by the opposite edge of exactly one triangle".
+    NOT proved: `march_closed_balanced` proves the first conjunct; the second is proved only inside a cell
+    (`cell_edges_nodup`); see notes/C09.md for the missing geometric step. -/
+def C09_closed_full : Prop :=
+  ∀ (s : Pt → Bool) (o : Pt) (nx ny nz : Nat), BoundaryOutside s o nx ny nz →
+    Balanced (boxEdges s o nx ny nz) ∧ (boxEdges s o nx ny nz).Nodup
+
+/-- the proved part of `C09_closed_full` -/
+theorem C09_closed_partial (s : Pt → Bool) (o : Pt) (nx ny nz : Nat) (hbd : BoundaryOutside s o nx ny nz) :
+    Balanced (boxEdges s o nx ny nz) ∧ ∀ p ∈ boxCells o nx ny nz, (cellEdges s p).Nodup :=
+  ⟨march_closed_balanced s o nx ny nz hbd, fun p _ => cell_edges_nodup s p⟩
+
+/-! ## 6. The weld keeps the surface balanced -/
+
+/-- a triangle is kept by the weld iff its three (welded) corners are pairwise different -/
+def nondegB {W : Type} [DecidableEq W] (t : W × W × W) : Bool := !(t.1 == t.2.1) && !(t.1 == t.2.2) && !(t.2.1 == t.2.2)
+
+/-- `WeldByFloat3Attribute`: every corner is replaced by the id `φ` of its rounded position (`vertILU[Vector3ToInt(..)]`)
+    and triangles in which two corners get the same id are dropped -/
+def weldTris {V W : Type} [DecidableEq W] (φ : V → W) (tris : List (V × V × V)) : List (W × W × W) :=
+  (tris.map fun t => (φ t.1, φ t.2.1, φ t.2.2)).filter nondegB
+
+theorem fl_flatMap_zero_aux {V T : Type} [DecidableEq V] (a b : V) (f : T → List (V × V)) (l : List T)
+    (h : ∀ x ∈ l, fl a b (f x) = 0) : fl a b (l.flatMap f) = 0 := by
+  induction l with
+  | nil => simp [fl]
+  | cons x l ih =>
+    rw [List.flatMap_cons, fl_append_aux, h x (List.mem_cons_self), ih (fun y hy => h y (List.mem_cons_of_mem _ hy))]; rfl
+
+theorem fl_perm_aux {V : Type} [DecidableEq V] (a b : V) {L M : List (V × V)} (h : L.Perm M) : fl a b L = fl a b M := by
+  unfold fl; rw [h.count_eq, h.count_eq]
+
+theorem fl_of_perm_swap_aux {V : Type} [DecidableEq V] (a b : V) {L : List (V × V)} (h : L.Perm (L.map swapE)) :
+    fl a b L = 0 := by
+  unfold fl
+  rw [← count_map_swap_aux L a b, ← h.count_eq]; ring
+
+theorem degenerate_tri_flow_aux {W : Type} [DecidableEq W] (a b : W) (t : W × W × W)
+    (h : nondegB t = false) : fl a b (triEdges t) = 0 := by
+  obtain ⟨x, y, z⟩ := t
+  simp only [nondegB, Bool.and_eq_false_iff, Bool.not_eq_false', beq_iff_eq] at h
+  apply fl_of_perm_swap_aux
+  simp only [triEdges, List.map, swapE]
+  rcases h with (h | h) | h <;> subst h
+  · exact List.Perm.cons _ (List.Perm.swap _ _ _)
+  · exact List.Perm.swap _ _ _
+  · simpa using (List.reverse_perm [(x, y), (y, y), (y, x)]).symm
+
+/-- identifying vertices by ANY map (the float-keyed weld, whatever it merges) and dropping the triangles that
+    thereby get two equal corners keeps the directed-edge balance -/
+theorem weld_preserves_balance {V W : Type} [DecidableEq V] [DecidableEq W] (φ : V → W) (tris : List (V × V × V))
+    (h : Balanced (tris.flatMap triEdges)) : Balanced ((weldTris φ tris).flatMap triEdges) := by
+  apply balanced_of_fl_aux
+  intro a b
+  set M := tris.map fun t => (φ t.1, φ t.2.1, φ t.2.2) with hM
+  have hEM : M.flatMap triEdges = (tris.flatMap triEdges).map fun e => (φ e.1, φ e.2) := by
+    rw [hM, List.flatMap_map, List.map_flatMap]; rfl
+  have hMbal : fl a b (M.flatMap triEdges) = 0 := by
+    rw [hEM]; exact fl_balanced_aux a b (h.map_aux φ)
+  have hperm : (M.filter nondegB ++ M.filter (fun t => !nondegB t)).Perm M := List.filter_append_perm nondegB M
+  have h2 := fl_perm_aux a b (hperm.flatMap_right triEdges)
+  rw [List.flatMap_append, fl_append_aux, hMbal] at h2
+  have hdrop : fl a b ((M.filter fun t => !nondegB t).flatMap triEdges) = 0 := by
+    apply fl_flatMap_zero_aux
+    intro t ht
+    have := (List.mem_filter.mp ht).2
+    exact degenerate_tri_flow_aux a b t (by simpa using this)
+  rw [hdrop] at h2
+  unfold weldTris
+  linarith
+
+/-- no degenerate face survives the weld -/
+theorem weld_nondegenerate {V W : Type} [DecidableEq W] (φ : V → W) (tris : List (V × V × V)) :
+    ∀ t ∈ weldTris φ tris, t.1 ≠ t.2.1 ∧ t.1 ≠ t.2.2 ∧ t.2.1 ≠ t.2.2 := by
+  intro t ht
+  have := (List.mem_filter.mp ht).2
+  simpa [nondegB, and_assoc] using this
+
+/-- non-vacuity: welding the two end points of an edge of a tetrahedron (balanced) drops two triangles and keeps two -/
+example : Balanced (([(0, 1, 2), (0, 3, 1), (1, 3, 2), (0, 2, 3)] : List (Nat × Nat × Nat)).flatMap triEdges) ∧
+    weldTris (fun v : Nat => if v = 3 then 2 else v) [(0, 1, 2), (0, 3, 1), (1, 3, 2), (0, 2, 3)] = [(0, 1, 2), (0, 2, 1)] := by
+  refine ⟨balancedB_sound_aux _ (by decide), by decide⟩
 
 end C09
 end PolyVerif
